@@ -7,9 +7,10 @@ cd /repo || exit 2
 if ! git diff --quiet; then echo "run_mutant: /repo has uncommitted changes" >&2; exit 2; fi
 if ! git apply "$PATCH"; then echo "run_mutant: patch does not apply" >&2; exit 2; fi
 trap 'git -C /repo checkout -- . ' EXIT INT TERM
+mkdir -p /verif/work/mutout
 cd /verif
 for p in "$@"; do
-    out=$(VERIF_RUNS=${MUT_RUNS:-60000} ./check $p quick 2>/verif/work/mutant-$p.err)
+    out=$(ANYSIM_HOME=/verif/work/mutout VERIF_RUNS=${MUT_RUNS:-60000} ./check $p quick 2>/verif/work/mutant-$p.err)
     code=$?
     first=$(echo "$out" | grep -m1 "^VIOLATION" || echo "-")
     sig=$(grep -m1 "^\[anysim\]   " /verif/work/mutant-$p.err | cut -c1-200)
